@@ -205,16 +205,13 @@ def has_file_marker(t):
 
 
 def gen_edit_family(rng, active_ok):
-    """an edit meta of the single-element forms the family parser accepts (doc-silent zone for members)"""
+    """a valid `edit` meta of the macro `family` itself: edit | edit(file) | edit(part, .., file(part, ..)) with part := def | imp[(..)] | trt[(..)]"""
     r = rng.random()
     if r < 0.2:
         return P("edit")
     if active_ok and r < 0.3:
         return L("edit", P("file"))
-    one = gen_tuple_items(rng, False, allow_file=False)[0]
-    if active_ok and rng.random() < 0.3:
-        return L("edit", L("file", *gen_tuple_items(rng, True, allow_file=False)))
-    return L("edit", one)
+    return L("edit", *gen_tuple_items(rng, False, allow_file=active_ok))
 
 
 def gen_actor_opts(rng, files, member=False, allow_edit=True, fam_lib=None):
@@ -245,7 +242,7 @@ def gen_actor_opts(rng, files, member=False, allow_edit=True, fam_lib=None):
         with_file = (not member) and rng.random() < 0.5
         if with_file:
             opts.append(NV("file", S(files["one"])))
-        opts.append(gen_edit_family(rng, False) if member else gen_edit_actor(rng, with_file))
+        opts.append(gen_edit_actor(rng, with_file))
     elif not member and rng.random() < 0.1:
         opts.append(NV("file", S(files[rng.choice(["one", "two", "none"])])))
     rng.shuffle(opts)
@@ -269,11 +266,16 @@ def gen_family_opts(rng, files, allow_edit=True):
         opts.append(P("Mutex"))
     elif r < 0.5:
         opts.append(P("RwLock"))
-    if allow_edit and rng.random() < 0.15:
-        opts.append(gen_edit_family(rng, False))
+    with_file = allow_edit and rng.random() < 0.3
+    if with_file:
+        opts.append(NV("file", S(files["one"])))
+    if allow_edit and rng.random() < 0.25:
+        opts.append(gen_edit_family(rng, with_file))
     firsts = rng.sample(FIRST_NAMES, rng.randint(1, 3))
     for fn in firsts:
         m = gen_actor_opts(rng, files, member=True, allow_edit=allow_edit)
+        if with_file and rng.random() < 0.4:
+            m = [x for x in m if key(x) != "edit"] + [gen_edit_actor(rng, True)]
         m = [x for x in m if key(x) != "first_name"] + [NV("first_name", S(fn))]
         rng.shuffle(m)
         opts.append(L("actor", *m))
@@ -301,10 +303,14 @@ WRONG_VALUES = {
     "show": [lambda: NV("show", ("O", "true")), lambda: L("show", P("x")), lambda: NV("show", I(1))],
     "debut": [lambda: NV("debut", ("O", "true")), lambda: L("debut", P("legacy")), lambda: NV("debut", S("x"))],
     "interact": [lambda: NV("interact", ("O", "true")), lambda: L("interact", P("x"))],
-    "include": [lambda: P("include"), lambda: NV("include", S("inc")), lambda: ("R", ["include"], '"inc"'), lambda: ("R", ["include"], "1, 2"), lambda: L("include", ("P", ["a", "b"]))],
-    "exclude": [lambda: P("exclude"), lambda: NV("exclude", S("inc")), lambda: ("R", ["exclude"], "inc get")],
+    "include": [lambda: L("include", NV("inc", I(1))), lambda: L("include", L("inc", P("x"))), lambda: P("include"), lambda: NV("include", S("inc")), lambda: ("R", ["include"], '"inc"'), lambda: ("R", ["include"], "1, 2"), lambda: L("include", ("P", ["a", "b"]))],
+    "exclude": [lambda: L("exclude", P("get"), NV("inc", S("x"))), lambda: P("exclude"), lambda: NV("exclude", S("inc")), lambda: ("R", ["exclude"], "inc get")],
     "file": [lambda: P("file"), lambda: NV("file", I(1)), lambda: NV("file", S("")), lambda: L("file", P("x"))],
-    "edit": [lambda: NV("edit", S("live")), lambda: ("R", ["edit"], '"x"'), lambda: L("edit", P("bogus")), lambda: L("edit", L("script", P("bogus"))), lambda: L("edit", NV("script", I(1))),
+    "Debug": [lambda: L("Debug", P("foo")), lambda: NV("Debug", S("x")), lambda: L("Debug")],
+    "Mutex": [lambda: NV("Mutex", I(1)), lambda: L("Mutex", P("x"))],
+    "RwLock": [lambda: NV("RwLock", ("O", "true")), lambda: L("RwLock")],
+    "edit": [lambda: L("edit"), lambda: L("edit", L("script")), lambda: L("edit", L("live", L("imp"))), lambda: L("edit", L("file")), lambda: L("edit", L("live", L("def", P("x")))),
+             lambda: L("edit", L("live", L("imp", NV("inc", I(1))))), lambda: L("edit", L("live", L("trt", L("Clone", P("x"))))), lambda: NV("edit", S("live")), lambda: ("R", ["edit"], '"x"'), lambda: L("edit", P("bogus")), lambda: L("edit", L("script", P("bogus"))), lambda: L("edit", NV("script", I(1))),
              lambda: L("edit", L("live", NV("imp", I(1)))), lambda: L("edit", L("live", ("P", ["a", "b"])))],
 }
 
